@@ -38,6 +38,8 @@ func init() {
 		Floor: 130,
 		Rule: "case = 3 peers with identical numbering, each with a seeded history of 4-10 announcements (first a reply - for one peer in five a partial notification; then reply | partial notify with 0-3 added and 0-2 removed entries in shuffled order, one in four naming one address twice (added+removed, folded in list order) | full notify) over the entity domain " +
 			"{[0],[1],[2],[1,1],[1,2]} with 1-3 features per entity from 6 feature types (operations with their partial sub-flags; one feature in four announces a function from outside the stack's table for its type), interleaved with subscribe/bind calls of the peers and SubscribeToRemote/BindToRemote of local client features. " +
+			"The optional elements of the announcement are varied as well: entities listed by a reply or a full notification (new and known ones) carry lastStateChange absent | added | modified, features and the device description likewise; one partial notification in three has an entry 'modified' that restates a known entity as it is; " +
+			"label, minimumTrustLevel, specificUsage, featureGroup, maxResponseDelay are filled in at random, a notification may leave deviceInformation out once the device address is known, a full notification is sent with or without the function element. None of these changes the announced tree. " +
 			"One case in three ends with a full notification that restates known entities with other descriptions/features/operations (the reference is the tree of the message). Entity events are also judged at publication time by a core-level handler (published object = resolved object, entity complete; removed address does not resolve). " +
 			"A case is non-trivial if at least one entity appeared through a notification, one disappeared, one multi-entity notification was sent and at least one removal cascaded over a registry entry or bookkeeping flag. " +
 			"distinct = distinct sequences of message shapes (kind, #created, #refreshed, #removed-known, #removed-unknown, nested) over the whole case.",
@@ -45,6 +47,7 @@ func init() {
 			"events are observed at the core level (synchronous with HandleSpineMesssage), so the trace of a message is complete when the call returns",
 			"only device-consistent announcements; [0] with NodeManagement is never announced away (D28 belongs to C05); an address is named at most once as added per notification (the feature list of a message is flat); entity types are a function of the address, so a refresh never changes the type",
 			"a full notification announces the complete tree: applying it yields the entities of the message with the content of the message. Inside a history full notifications restate known entities identically; the redrawn one is the last message of its case, so a deviation there does not take the reference away from the steps before it",
+			"lastStateChange in a reply or a full notification tells the history of an entry, it is not a command: an entity (feature) that such a message lists with no value, 'added' or 'modified' is part of the announced tree. 'removed' on a listed entry contradicts itself and is not generated; a partial entry 'modified' is only generated with the content the entity already has (what it would mean otherwise is not fixed by the statement), a partial entry without lastStateChange not at all",
 			"which device part the API shows for an entity (and its features) that no announcement has listed yet is not fixed by the statement: replies list [0] until it has been listed once, and no full notification is sent before that",
 			"the registry content after a subscribe/bind call is adopted as observed (its exactness is C08/C09); C06 judges only what a discovery message does to it",
 		},
@@ -390,16 +393,38 @@ func (h *c06Pub) HandleEvent(p api.EventPayload) {
 
 type c06EntMsg struct {
 	addr    []uint
-	state   string // "", "added", "removed"
+	state   string // "" (listed by a reply / full notification), "added", "removed", "same" (partial entry 'modified' that restates a known entity as it is)
+	lsc     string // state "": the optional element lastStateChange as sent ("" = left out, "added", "modified")
 	desc    *string
 	feats   []c06F
 	omitDev bool
 }
 
+// wire: the value of entityInformation.description.lastStateChange of the entry ("" = element left out)
+func (m c06EntMsg) wire() string {
+	switch m.state {
+	case "":
+		return m.lsc
+	case "same":
+		return "modified"
+	}
+	return m.state
+}
+
+// c06LSC: what a reply or a full notification may say in lastStateChange about an entity (or feature) it lists.
+// "removed" is not generated there: an entry that is listed as part of the tree and called removed contradicts itself.
+var c06LSC = []string{"", "", "added", "modified", "modified"}
+
 func (m c06EntMsg) String() string {
 	s := m.state
 	if s == "" {
 		s = "listed"
+		if m.lsc != "" {
+			s = "listed(lastStateChange=" + m.lsc + ")"
+		}
+	}
+	if s == "same" {
+		s = "modified(restated as it is)"
 	}
 	if m.state == "removed" {
 		return "removed " + c06Key(m.addr)
@@ -415,38 +440,92 @@ func (m c06EntMsg) String() string {
 	return fmt.Sprintf("%s %s desc=%s feats[%s]", s, c06Key(m.addr), c06P(m.desc), strings.Join(fs, " "))
 }
 
-func c06Build(c *rig.Ctx, p *rig.Peer, devType *model.DeviceTypeType, fset *model.NetworkManagementFeatureSetType, ents []c06EntMsg) *model.NodeManagementDetailedDiscoveryDataType {
-	d := &model.NodeManagementDetailedDiscoveryDataType{
+// c06Build renders one announcement. Besides the elements the reference tree is made of it fills, at random, the
+// optional elements of the three description types that the API does not report (lastStateChange of device,
+// entity and feature, label, minimumTrustLevel, specificUsage, featureGroup, maxResponseDelay); a notification of a
+// peer whose device address is known may leave deviceInformation out. None of them changes what is announced;
+// extras names what was filled in (for the history of a witness).
+func c06Build(c *rig.Ctx, p *rig.Peer, devType *model.DeviceTypeType, fset *model.NetworkManagementFeatureSetType, ents []c06EntMsg, mayOmitDevInfo bool) (d *model.NodeManagementDetailedDiscoveryDataType, extras []string) {
+	r := c.Rand
+	lscOf := func(v string) *model.NetworkManagementStateChangeType {
+		if v == "" {
+			return nil
+		}
+		return util.Ptr(model.NetworkManagementStateChangeType(v))
+	}
+	note := func(class, detail string) {
+		extras = append(extras, detail)
+		c.Count("optional_elements_sent:"+class, 1)
+	}
+	d = &model.NodeManagementDetailedDiscoveryDataType{
 		SpecificationVersionList: &model.NodeManagementSpecificationVersionListType{SpecificationVersion: []model.SpecificationVersionDataType{"1.3.0"}},
 		DeviceInformation: &model.NodeManagementDetailedDiscoveryDeviceInformationType{Description: &model.NetworkManagementDeviceDescriptionDataType{
 			DeviceAddress: &model.DeviceAddressType{Device: util.Ptr(model.AddressDeviceType(p.Addr))}, DeviceType: devType, NetworkFeatureSet: fset}}}
+	if mayOmitDevInfo && r.Intn(4) == 0 {
+		d.DeviceInformation = nil
+		note("notification_without_deviceInformation", "no deviceInformation")
+	} else {
+		dd := d.DeviceInformation.Description
+		if v := c06LSC[r.Intn(len(c06LSC))]; v != "" {
+			dd.LastStateChange = lscOf(v)
+			note("device.lastStateChange="+v, "device lastStateChange="+v)
+		}
+		if r.Intn(4) == 0 {
+			dd.Label = util.Ptr(model.LabelType(fmt.Sprintf("dl%d", r.Intn(100))))
+			dd.Description = util.Ptr(model.DescriptionType(fmt.Sprintf("dd%d", r.Intn(100))))
+			dd.MinimumTrustLevel = util.Ptr(model.NetworkManagementMinimumTrustLevelType("2"))
+			note("device.label+description+minimumTrustLevel", "device label/description/minimumTrustLevel")
+		}
+	}
 	for _, e := range ents {
 		dev := p.Addr
 		if e.omitDev {
 			dev = ""
 		}
-		desc := &model.NetworkManagementEntityDescriptionDataType{EntityAddress: rig.EA(dev, e.addr)}
-		switch e.state {
-		case "added":
-			desc.LastStateChange = util.Ptr(model.NetworkManagementStateChangeTypeAdded)
-		case "removed":
-			desc.LastStateChange = util.Ptr(model.NetworkManagementStateChangeTypeRemoved)
-		}
+		desc := &model.NetworkManagementEntityDescriptionDataType{EntityAddress: rig.EA(dev, e.addr), LastStateChange: lscOf(e.wire())}
 		if e.state != "removed" {
 			et := rig.EntityTypeFor(e.addr)
 			desc.EntityType = &et
 			if e.desc != nil {
 				desc.Description = util.Ptr(model.DescriptionType(*e.desc))
 			}
+			if r.Intn(4) == 0 {
+				desc.Label = util.Ptr(model.LabelType(fmt.Sprintf("el%d", r.Intn(100))))
+				note("entity.label", c06Key(e.addr)+" label")
+			}
+			if r.Intn(6) == 0 {
+				desc.MinimumTrustLevel = util.Ptr(model.NetworkManagementMinimumTrustLevelType("8"))
+				note("entity.minimumTrustLevel", c06Key(e.addr)+" minimumTrustLevel")
+			}
 			for _, f := range e.feats {
 				ft, ro := f.typ, f.role
 				fdev := p.Addr
-				if c.Rand.Intn(3) == 0 {
+				if r.Intn(3) == 0 {
 					fdev = ""
 				}
 				fd := &model.NetworkManagementFeatureDescriptionDataType{FeatureAddress: rig.FA(fdev, e.addr, f.id), FeatureType: &ft, Role: &ro}
 				if f.desc != nil {
 					fd.Description = util.Ptr(model.DescriptionType(*f.desc))
+				}
+				// what the entry says about the history of the feature: of a feature of an entity called removed nothing
+				// is sent; otherwise nothing, added or modified
+				if v := c06LSC[r.Intn(len(c06LSC))]; v != "" {
+					fd.LastStateChange = lscOf(v)
+					note("feature.lastStateChange="+v, fmt.Sprintf("%s/%d lastStateChange=%s", c06Key(e.addr), f.id, v))
+				}
+				if r.Intn(5) == 0 {
+					fd.Label = util.Ptr(model.LabelType(fmt.Sprintf("fl%d", r.Intn(100))))
+					fd.MinimumTrustLevel = util.Ptr(model.NetworkManagementMinimumTrustLevelType("4"))
+					note("feature.label+minimumTrustLevel", fmt.Sprintf("%s/%d label/minimumTrustLevel", c06Key(e.addr), f.id))
+				}
+				if r.Intn(5) == 0 {
+					fd.SpecificUsage = []model.FeatureSpecificUsageType{model.FeatureSpecificUsageType("Electrical")}
+					fd.FeatureGroup = util.Ptr(model.FeatureGroupType(fmt.Sprintf("g%d", r.Intn(3))))
+					note("feature.specificUsage+featureGroup", fmt.Sprintf("%s/%d specificUsage/featureGroup", c06Key(e.addr), f.id))
+				}
+				if r.Intn(5) == 0 {
+					fd.MaxResponseDelay = util.Ptr(model.MaxResponseDelayType("PT10S"))
+					note("feature.maxResponseDelay", fmt.Sprintf("%s/%d maxResponseDelay", c06Key(e.addr), f.id))
 				}
 				for _, o := range f.ops {
 					fp := model.FunctionPropertyType{Function: util.Ptr(o.fn), PossibleOperations: &model.PossibleOperationsType{}}
@@ -470,10 +549,10 @@ func c06Build(c *rig.Ctx, p *rig.Peer, devType *model.DeviceTypeType, fset *mode
 		d.EntityInformation = append(d.EntityInformation, model.NodeManagementDetailedDiscoveryEntityInformationType{Description: desc})
 	}
 	// the order of the feature entries carries no meaning
-	c.Rand.Shuffle(len(d.FeatureInformation), func(i, j int) {
+	r.Shuffle(len(d.FeatureInformation), func(i, j int) {
 		d.FeatureInformation[i], d.FeatureInformation[j] = d.FeatureInformation[j], d.FeatureInformation[i]
 	})
-	return d
+	return d, extras
 }
 
 var c06Fns = map[model.FeatureTypeType][]rig.FnInfo{}
@@ -786,7 +865,7 @@ func c06Case(c *rig.Ctx) {
 
 		// ---- generate one announcement and apply it to the reference
 		var appeared, gone []string
-		var created, refreshed, remKnown, remUnknown, redrawn int
+		var created, refreshed, remKnown, remUnknown, redrawn, restated int
 		var unrefreshed []string             // the tree if a full notification left known entities as they were
 		expectAtAdd := map[string][]string{} // entity -> what it must show when its add event is published
 		nested := false
@@ -794,6 +873,9 @@ func c06Case(c *rig.Ctx) {
 		kind := ""
 		listed := func(a []uint, state string) c06EntMsg {
 			m := c06EntMsg{addr: a, state: state, desc: c06RandDesc(c, "e"), omitDev: r.Intn(2) == 0}
+			if state == "" {
+				m.lsc = c06LSC[r.Intn(len(c06LSC))]
+			}
 			if a[0] == 0 {
 				m.feats = c06NMFeats(c)
 			} else {
@@ -858,7 +940,7 @@ func c06Case(c *rig.Ctx) {
 			var again []c06EntMsg
 			for _, k := range keys {
 				e := t.ents[k]
-				m := c06EntMsg{addr: e.addr, desc: e.desc, feats: append([]c06F(nil), e.feats...), omitDev: r.Intn(2) == 0}
+				m := c06EntMsg{addr: e.addr, desc: e.desc, feats: append([]c06F(nil), e.feats...), omitDev: r.Intn(2) == 0, lsc: c06LSC[r.Intn(len(c06LSC))]}
 				if k != "[0]" && ((must >= 0 && known[must] == k) || r.Intn(2) == 0) {
 					m = listed(e.addr, "")
 					again = append(again, m)
@@ -932,11 +1014,37 @@ func c06Case(c *rig.Ctx) {
 			if r.Intn(10) == 0 { // [0] re-announced as added, complete with its NodeManagement
 				ents = append(ents, listed([]uint{0}, "added"))
 			}
+			// one notification in three also carries an entry with lastStateChange 'modified' that restates an entity
+			// which is known, and not named otherwise by this notification, exactly as it is (same description, same
+			// features): whatever 'modified' is taken to mean, nothing appears, disappears or changes
+			if r.Intn(3) == 0 {
+				named := map[string]bool{}
+				for _, m := range ents {
+					named[c06Key(m.addr)] = true
+				}
+				var keys []string
+				for k, e := range t.ents {
+					if !named[k] && e.dev != "" {
+						keys = append(keys, k)
+					}
+				}
+				sort.Strings(keys)
+				if len(keys) > 0 {
+					e := t.ents[keys[r.Intn(len(keys))]]
+					ents = append(ents, c06EntMsg{addr: e.addr, state: "same", desc: e.desc, feats: append([]c06F(nil), e.feats...), omitDev: r.Intn(2) == 0})
+				}
+			}
 			r.Shuffle(len(ents), func(i, j int) { ents[i], ents[j] = ents[j], ents[i] })
 			for _, m := range ents {
-				if m.state == "added" {
+				switch m.state {
+				case "added":
 					applyListed(m)
-				} else {
+				case "same":
+					restated++
+					if len(m.addr) > 1 {
+						nested = true
+					}
+				default:
 					applyRemoved(m.addr)
 				}
 			}
@@ -954,7 +1062,7 @@ func c06Case(c *rig.Ctx) {
 					drop[k] = true
 					continue
 				}
-				ents = append(ents, c06EntMsg{addr: e.addr, desc: e.desc, feats: append([]c06F(nil), e.feats...), omitDev: r.Intn(2) == 0})
+				ents = append(ents, c06EntMsg{addr: e.addr, desc: e.desc, feats: append([]c06F(nil), e.feats...), omitDev: r.Intn(2) == 0, lsc: c06LSC[r.Intn(len(c06LSC))]})
 			}
 			var fresh []c06EntMsg
 			for _, a := range c06Dom {
@@ -978,13 +1086,56 @@ func c06Case(c *rig.Ctx) {
 		}
 		q.begun = true
 		var ms []string
+		appearedSet := map[string]bool{}
+		for _, k := range appeared {
+			appearedSet[k] = true
+		}
+		lscShape := map[string]bool{}
 		for _, m := range ents {
 			ms = append(ms, m.String())
+			if m.state == "" { // measured: what a reply / full notification says in lastStateChange about new and known entities
+				v, what := m.lsc, "known"
+				if v == "" {
+					v = "absent"
+				}
+				if appearedSet[c06Key(m.addr)] {
+					what = "new"
+				}
+				c.Count(fmt.Sprintf("listed_entities:%s:%s:lastStateChange=%s", kind, what, v), 1)
+				c.Seen("lastStateChange_of_listed_entities", kind+":"+what+":"+v)
+				if m.lsc != "" {
+					lscShape[what[:1]+m.lsc[:1]] = true
+				}
+			}
 		}
-		trace = append(trace, fmt.Sprintf("peer%d %s: %s", q.idx, kind, strings.Join(ms, " ; ")))
+		// a full notification is sent with or without the function element (without a filter it is full either way);
+		// a notification may leave deviceInformation out once the reply has made the device address known
+		fullWithFunction := kind == "full" && r.Intn(2) == 0
+		d, extras := c06Build(c, p, q.lastDT, q.lastFS, ents, kind != "reply" && t.devAddr != "")
+		line := fmt.Sprintf("peer%d %s: %s", q.idx, kind, strings.Join(ms, " ; "))
+		if fullWithFunction {
+			line += " ; cmd carries the function element"
+			c.Count("full_notifications_with_function_element", 1)
+		}
+		if len(extras) > 0 {
+			line += " ; optional elements: " + strings.Join(extras, ", ")
+		}
+		trace = append(trace, line)
 		shape := fmt.Sprintf("%s+%d~%d-%d?%d", kind[:1], created, refreshed, remKnown, remUnknown)
 		if nested {
 			shape += "n"
+		}
+		if restated > 0 {
+			shape += "="
+			c.Count("partial_entries_modified_restating_a_known_entity", int64(restated))
+		}
+		if len(lscShape) > 0 {
+			var ks []string
+			for k := range lscShape {
+				ks = append(ks, k)
+			}
+			sort.Strings(ks)
+			shape += "L" + strings.Join(ks, "")
 		}
 		if redrawn > 0 {
 			shape += fmt.Sprintf("R%d", redrawn)
@@ -1042,7 +1193,6 @@ func c06Case(c *rig.Ctx) {
 			qq.p.Tap.Take()
 		}
 		w.Core.Take()
-		d := c06Build(c, p, q.lastDT, q.lastFS, ents)
 		pub.arm(p.Ski, p.RD, expectAtAdd)
 		switch kind {
 		case "reply":
@@ -1050,7 +1200,11 @@ func c06Case(c *rig.Ctx) {
 		case "partial":
 			p.NotifyDiscovery(true, d)
 		default:
-			p.NotifyDiscovery(false, d)
+			cmd := model.CmdType{NodeManagementDetailedDiscoveryData: d}
+			if fullWithFunction {
+				cmd.Function = util.Ptr(model.FunctionTypeNodeManagementDetailedDiscoveryData)
+			}
+			p.Send(model.CmdClassifierTypeNotify, p.NM(), rig.LNM, false, nil, cmd)
 		}
 		atPublication := pub.disarm()
 		c.Events(1)
